@@ -15,6 +15,7 @@ import (
 	"strconv"
 	"strings"
 	"sync"
+	"sync/atomic"
 	"time"
 
 	"verifharness/vh"
@@ -41,7 +42,7 @@ type result struct {
 	oracle   [][3]string // key, replay case line, detail
 }
 
-const fmtTimeout = 20 * time.Second
+const fmtTimeout = 6 * time.Second
 
 type prepared struct {
 	toks   []tokInfo
@@ -218,6 +219,9 @@ func runAll(jobs []job, o *vh.Out, deadline time.Time) (done int) {
 		if !deadline.IsZero() && i%64 == 0 && time.Now().After(deadline) {
 			break
 		}
+		if atomic.LoadInt32(&hung) != 0 {
+			break // a formatter call hangs (and may allocate without bound): stop, report, exit
+		}
 		idx <- i
 	}
 	close(idx)
@@ -381,6 +385,9 @@ func search(f *vh.Flags, o *vh.Out) {
 		jobs = append(jobs, job{s, "asis", -1}, job{s, "allblk", -1})
 	}
 	runAll(jobs, o, time.Time{})
+	if atomic.LoadInt32(&hung) != 0 {
+		return
+	}
 	// phase 2: single insertions
 	jobs = jobs[:0]
 	r := vh.NewRand(f.Seed ^ 0xC21)
@@ -469,6 +476,10 @@ func main() {
 	}
 	if *flagExplore {
 		explore(f.Out)
+	}
+	if atomic.LoadInt32(&hung) != 0 {
+		o.Close()
+		os.Exit(0) // kills the goroutine(s) still looping inside the code under test
 	}
 }
 
